@@ -507,12 +507,12 @@ class IntegerFieldFormat(AbstractFieldFormat):
                 result = -(limit + 1)
             return result
 
-        if self.valid_range is None:
-            limit = None
-        else:
+        limit = None
+        if self.valid_range is not None:
             lower_limit = self.valid_range.lower_limit
             upper_limit = self.valid_range.upper_limit
-            limit = max(sign_adjusted_limit(lower_limit), sign_adjusted_limit(upper_limit))
+            if (lower_limit is not None) and (upper_limit is not None):
+                limit = max(sign_adjusted_limit(lower_limit), sign_adjusted_limit(upper_limit))
         return "int", limit
 
     def validated_value(self, value):
